@@ -516,7 +516,13 @@ func (r *RegRun) ProbeFields(plan ProbePlan) (trace.M, int) {
 		bal[n] = []int64{before[n], r.balOf(n)}
 	}
 	r.step++
-	return trace.M{"probe": out, "full": true, "bal": bal}, len(cells)
+	ran := 0
+	for _, c := range cells {
+		if !c.skip {
+			ran++
+		}
+	}
+	return trace.M{"probe": out, "full": true, "bal": bal}, ran
 }
 
 func withFields(line trace.M, f trace.M) trace.M {
